@@ -5,14 +5,17 @@ package props
 // eviction pattern they contain), evaluated at EVERY event of every trace.
 
 import (
-	"encoding/binary"
 	"encoding/json"
 	"fmt"
 	"strings"
 	"time"
 
+	"github.com/ryogrid/SamehadaDB/lib/common"
 	"github.com/ryogrid/SamehadaDB/lib/recovery"
 	"github.com/ryogrid/SamehadaDB/lib/recovery/log_recovery"
+	"github.com/ryogrid/SamehadaDB/lib/storage/access"
+	"github.com/ryogrid/SamehadaDB/lib/storage/page"
+	"github.com/ryogrid/SamehadaDB/lib/types"
 
 	"verif/core"
 )
@@ -82,52 +85,61 @@ func (w *walState) feed(ctx string) {
 	}
 }
 
+// asTablePage wraps a page image so that it is read through the repository's own accessors (the check
+// does not depend on the byte layout of table pages).
+func asTablePage(pg int32, img []byte) *access.TablePage {
+	var arr [common.PageSize]byte
+	copy(arr[:], img)
+	return access.CastPageAsTablePage(page.New(types.PageID(pg), false, &arr))
+}
+
 // slotContent: what slot s of a table page image holds (size word incl. the delete mark + the row bytes),
 // "" if the image has no such slot. Offsets are not part of it: compaction moves bytes without changing rows.
-func slotContent(img []byte, s int) string {
-	if len(img) < 24 {
+func slotContent(tp *access.TablePage, s int) string {
+	if tp == nil || s >= int(tp.GetTupleCount()) {
 		return ""
 	}
-	n := int(binary.LittleEndian.Uint32(img[20:24]))
-	if s >= n || 24+8*s+8 > len(img) {
-		return ""
-	}
-	off := int(binary.LittleEndian.Uint32(img[24+8*s:]))
-	sz := binary.LittleEndian.Uint32(img[28+8*s:])
-	real := int(sz &^ (1 << 31))
+	off := int(tp.GetTupleOffsetAtSlot(uint32(s)))
+	sz := tp.GetTupleSize(uint32(s))
+	real := int(access.UnsetDeletedFlag(sz))
 	if off == 0 && real == 0 {
 		return "empty-slot"
 	}
-	if off+real > len(img) {
+	if off+real > len(tp.Data()) {
 		return fmt.Sprintf("size=%#x@bad-offset", sz)
 	}
-	return fmt.Sprintf("size=%#x:%x", sz, img[off:off+real])
+	return fmt.Sprintf("size=%#x:%x", sz, tp.Data()[off:off+real])
 }
 
 // contentRule compares the image being written with the previous durable image of the page.
 func (w *walState) contentRule(hr *HistoryRun, pg int32, img []byte, ctx string) {
-	prev, ok := w.lastImg[pg]
+	prevImg, ok := w.lastImg[pg]
 	if !ok {
-		if lo := int(pg) * 4096; lo+4096 <= len(hr.Base.DB) {
-			prev = hr.Base.DB[lo : lo+4096]
+		if lo := int(pg) * common.PageSize; lo+common.PageSize <= len(hr.Base.DB) {
+			prevImg = hr.Base.DB[lo : lo+common.PageSize]
 		}
 	}
-	np, ni := 0, int(binary.LittleEndian.Uint32(img[20:24]))
-	if len(prev) >= 24 {
-		np = int(binary.LittleEndian.Uint32(prev[20:24]))
+	cur := asTablePage(pg, img)
+	var prev *access.TablePage
+	np := 0
+	// a page id that did not hold this table page before (never written, or zeroes) has no previous rows
+	if prevImg != nil && (ok || asTablePage(pg, prevImg).GetPageID() == types.PageID(pg)) {
+		prev = asTablePage(pg, prevImg)
+		np = int(prev.GetTupleCount())
 	}
+	ni := int(cur.GetTupleCount())
 	for s := 0; s < max(np, ni) && s < 500; s++ {
 		key := [2]int32{pg, int32(s)}
-		if slotContent(prev, s) != slotContent(img, s) && w.mentions[key] <= w.seenAt[key] {
+		if slotContent(prev, s) != slotContent(cur, s) && w.mentions[key] <= w.seenAt[key] {
 			w.violations = append(w.violations, crashFinding{"C08", "page-change-without-durable-record/row/" + ctx,
 				fmt.Sprintf("heap page %d written: slot %d differs from the last image of the page on disk, but no log record about row id (%d,%d) has reached stable storage since then (log ends at LSN %d; %s)", pg, s, pg, s, w.maxLSN, ctx)})
 		}
 		w.seenAt[key] = w.mentions[key]
 	}
-	next := int32(binary.LittleEndian.Uint32(img[12:16]))
+	next := int32(cur.GetNextPageID())
 	prevNext := int32(-1)
-	if len(prev) >= 16 && (ok || binary.LittleEndian.Uint32(prev[0:4]) == uint32(pg)) {
-		prevNext = int32(binary.LittleEndian.Uint32(prev[12:16]))
+	if prev != nil {
+		prevNext = int32(prev.GetNextPageID())
 	}
 	if next != prevNext && next >= 0 && !w.links[[2]int32{pg, next}] {
 		w.violations = append(w.violations, crashFinding{"C08", "page-change-without-durable-record/next-page-link/" + ctx,
@@ -153,7 +165,7 @@ func walMonitor(hr *HistoryRun) []crashFinding {
 			w.log, w.parsed = nil, 0
 		case 'P':
 			if hr.HeapPages[ev.Page] {
-				lsn := int32(binary.LittleEndian.Uint32(ev.Data[4:8]))
+				lsn := int32(asTablePage(ev.Page, ev.Data).GetLSN())
 				if lsn > w.maxLSN {
 					w.violations = append(w.violations, crashFinding{"C08", "page-ahead-of-log/" + ctx,
 						fmt.Sprintf("heap page %d written with page LSN %d while the log on stable storage ends at LSN %d (%s)", ev.Page, lsn, w.maxLSN, ctx)})
